@@ -1036,21 +1036,41 @@ fn c03_nlri_ipv6() {
 }
 
 //@ id=C03 tier=thorough cap=1800 mem=24
-//@ fn: bgp::PeerCodec::decode_nlri, vpn::VpnV4Nlri::decode, labeled::LabeledV4Nlri::decode, rtc::RtcNlri::decode, mpls / rd helpers
-//@ bound: ALL byte strings of length 0..=20 as one VPNv4 / labeled-IPv4 / RTC NLRI (family symbolic among the three), add-path on/off; unwind 24
-//@ desc: total (message or NOTIFICATION, no panic), cursor never passes the end, progress
+//@ fn: bgp::PeerCodec::decode_nlri, bgp::Nlri::decode, vpn::VpnV4Nlri::decode, rd / mpls label helpers
+//@ bound: ALL byte strings of length 0..=17 as one NLRI of this family, add-path on/off, reach/withdraw; unwind 24
+//@ desc: total (an NLRI or a NOTIFICATION, no panic / out-of-bounds), the cursor never passes the end, an accepted NLRI consumed at least one byte
 #[kani::proof]
 #[kani::unwind(24)]
 #[kani::stub(alloc::fmt::format, stub_format_bgp)]
-fn c03_nlri_vpn_labeled_rtc() {
-    let k: u8 = kani::any();
-    kani::assume(k < 3);
-    let (ok, _used) = match k {
-        0 => nlri_one::<20>(Family::IPV4_VPN),
-        1 => nlri_one::<20>(Family::IPV4_MPLS),
-        _ => nlri_one::<20>(Family::RTC),
-    };
-    kani::cover!(ok && k == 0);
-    kani::cover!(ok && k == 1);
-    kani::cover!(ok && k == 2);
+fn c03_nlri_vpnv4() {
+    let (ok, _used) = nlri_one::<17>(Family::IPV4_VPN);
+    kani::cover!(ok);
+    kani::cover!(!ok);
 }
+
+//@ id=C03 tier=thorough cap=1800 mem=24
+//@ fn: bgp::PeerCodec::decode_nlri, bgp::Nlri::decode, labeled::LabeledV4Nlri::decode, mpls label helpers
+//@ bound: ALL byte strings of length 0..=10 as one NLRI of this family, add-path on/off, reach/withdraw; unwind 24
+//@ desc: total (an NLRI or a NOTIFICATION, no panic / out-of-bounds), the cursor never passes the end, an accepted NLRI consumed at least one byte
+#[kani::proof]
+#[kani::unwind(24)]
+#[kani::stub(alloc::fmt::format, stub_format_bgp)]
+fn c03_nlri_labeled_v4() {
+    let (ok, _used) = nlri_one::<10>(Family::IPV4_MPLS);
+    kani::cover!(ok);
+    kani::cover!(!ok);
+}
+
+//@ id=C03 tier=thorough cap=1800 mem=24
+//@ fn: bgp::PeerCodec::decode_nlri, bgp::Nlri::decode, rtc::RtcNlri::decode
+//@ bound: ALL byte strings of length 0..=14 as one NLRI of this family, add-path on/off, reach/withdraw; unwind 24
+//@ desc: total (an NLRI or a NOTIFICATION, no panic / out-of-bounds), the cursor never passes the end, an accepted NLRI consumed at least one byte
+#[kani::proof]
+#[kani::unwind(24)]
+#[kani::stub(alloc::fmt::format, stub_format_bgp)]
+fn c03_nlri_rtc() {
+    let (ok, _used) = nlri_one::<14>(Family::RTC);
+    kani::cover!(ok);
+    kani::cover!(!ok);
+}
+
